@@ -331,6 +331,13 @@ fn hook_spawn(f: Box<dyn FnOnce() + Send + 'static>) {
     with_kernel(|k| k.jobs.push_back(f));
 }
 
+fn hook_op_supported(code: u8) -> Option<bool> {
+    KERNEL.with(|k| match k.try_borrow() {
+        Ok(k) if k.active => Some(!k.cfg.unsupported.contains(&code) && ops::modelled(code)),
+        _ => None,
+    })
+}
+
 fn hook_now() -> Duration {
     Duration::from_nanos(now_ns())
 }
@@ -343,6 +350,7 @@ static HOOKS: simhook::Hooks = simhook::Hooks {
     unpark: hook_unpark,
     spawn: hook_spawn,
     now: hook_now,
+    op_supported: hook_op_supported,
 };
 
 fn install_hooks() {
